@@ -1244,8 +1244,22 @@ def check(index, ctx):
     for n in fcfg.stmt_nodes():
         for e in own_exprs(n):
             for b in ast.walk(e):
+                def _bare(o_):
+                    # `matrix.T`, `matrix.t()`, `matrix.mT`: the transposed operand is still the input tensor
+                    while (isinstance(o_, ast.Attribute) and o_.attr in ("T", "mT")) or (isinstance(o_, ast.Call) and isinstance(o_.func, ast.Attribute) and o_.func.attr == "t" and not o_.args):
+                        o_ = o_.value if isinstance(o_, ast.Attribute) else o_.func.value
+                    return o_
+                pair_ = None
                 if isinstance(b, ast.BinOp) and isinstance(b.op, (ast.MatMult,)):
-                    names = [(x, o) for x, o in ((b.left, b.right), (b.right, b.left)) if isinstance(x, ast.Name) and x.id not in params_t and isinstance(o, ast.Name) and o.id in params_t]
+                    pair_ = (b.left, b.right)
+                elif isinstance(b, ast.Call) and isinstance(b.func, ast.Attribute) and b.func.attr in ("mv", "mm", "matmul", "dot", "inner", "tensordot") and not b.keywords:
+                    if isinstance(b.func.value, ast.Name) and b.func.value.id == "torch" and len(b.args) == 2:
+                        pair_ = (b.args[0], b.args[1])
+                    elif len(b.args) == 1 and not (isinstance(b.func.value, ast.Name) and b.func.value.id in ("torch", "np", "numpy")):
+                        pair_ = (b.func.value, b.args[0])
+                if pair_ is not None:
+                    pair_ = (_bare(pair_[0]), _bare(pair_[1]))
+                    names = [(x, o) for x, o in (pair_, pair_[::-1]) if isinstance(x, ast.Name) and x.id not in params_t and isinstance(o, ast.Name) and o.id in params_t]
                     for x, o in names:
                         n_sites += 1
                         rd = reaching_defs(fcfg, x.id)[n]
@@ -1255,6 +1269,15 @@ def check(index, ctx):
                                 kinds[norm_text(d.ast)] = expr_kind(d.ast.value, field_kinds, cls)
                             else:
                                 kinds[norm_text(d.ast)] = "same"
+                        fixed = [(d, k_) for d in rd if isinstance(d.ast, ast.Assign)
+                                 and not (isinstance(d.ast.value, ast.Call) and isinstance(d.ast.value.func, ast.Attribute) and d.ast.value.func.attr in ("to", "type", "type_as")
+                                          and not any(kk.arg == "dtype" and isinstance(kk.value, ast.Attribute) and isinstance(kk.value.value, ast.Name) and kk.value.value.id == "torch" for kk in d.ast.value.keywords))
+                                 for c_ in ast.walk(d.ast.value) if isinstance(c_, ast.Call) for k_ in c_.keywords
+                                 if k_.arg == "dtype" and isinstance(k_.value, ast.Attribute) and isinstance(k_.value.value, ast.Name) and k_.value.value.id == "torch"]
+                        if fixed:
+                            ctx.violated("R3", f"forward: `{norm_text(b)}` operand dtype", f"`{x.id}` reaches the product with the input tensor from `{norm_text(fixed[0][0].ast)[:90]}`, which fixes its dtype to "
+                                         f"`{norm_text(fixed[0][1].value)}` whatever the matrix's: for a matrix of another floating dtype (float64) the product raises RuntimeError, on every call", fwd.loc(b))
+                            continue
                         bad = {k: v for k, v in kinds.items() if v not in ("tensor", "same")}
                         if bad and all(v is None for v in bad.values()):
                             ctx.undecided("R3", f"forward: `{norm_text(b)}` operand kinds", f"the kind (torch tensor / numpy array) of `{x.id}` could not be read off {sorted(bad)}", fwd.loc(b))
